@@ -81,6 +81,7 @@ type vf10Conn struct {
 	readErrs     atomic.Int64 // errors returned to the code under test
 	writeErrs    atomic.Int64
 	setupWrErrs  atomic.Int64 // write errors returned while Dial / WrapConn was running
+	setupRdErrs  atomic.Int64 // read errors returned while Dial / WrapConn was running
 }
 
 func (c *vf10Conn) Read(b []byte) (int, error) {
@@ -90,6 +91,9 @@ func (c *vf10Conn) Read(b []byte) (int, error) {
 	n, err := c.Conn.Read(b)
 	if err != nil {
 		c.readErrs.Add(1)
+		if c.inSetup.Load() {
+			c.setupRdErrs.Add(1)
+		}
 	}
 	return n, err
 }
@@ -213,6 +217,7 @@ type vf10Out struct {
 	setupErr     string
 	readErr      string
 	pastHeader   bool // the handshake got past the magic / PADLEN check
+	rejected     bool // the handshake returned an error although no read or write of the connection had failed
 	slow         bool // first watchdog expired, second did not (inconclusive, not a violation)
 	fired        bool
 	writeErrSeen bool
@@ -445,6 +450,7 @@ func vf10Run(cs *vf10Case) (string, *vf10Out) {
 	}
 	out.delivered = ep.GotLen()
 	out.pastHeader = out.setupOK || out.consumed > refobfs2.SeedLen+refobfs2.HeaderLen
+	out.rejected = ep.SetupDone() && ep.SetupErr() != nil && wc.setupRdErrs.Load() == 0 && wc.setupWrErrs.Load() == 0
 	if wc.setupWrErrs.Load() > 0 && ep.SetupErr() == nil {
 		return fail("VIOL[c10-obfs2-error-swallowed]: a write of the connection failed during the handshake and the handshake did not return an error")
 	}
@@ -473,6 +479,9 @@ func vf10Classes(unit string, cs *vf10Case, o *vf10Out) ([]string, bool) {
 		cls = append(cls, unit+"-rejected-padlen")
 	default:
 		cls = append(cls, unit+"-handshake-io-error")
+	}
+	if o.rejected {
+		cls = append(cls, unit+"-rejected-by-parser")
 	}
 	if o.pastHeader {
 		cls = append(cls, unit+"-past-magic-check")
@@ -607,8 +616,10 @@ func TestVerifC10Obfs2Bytes(t *testing.T) {
 	c.Floor("obfs2-bytes-input>=64KiB/obfs2-bytes", 0.10)
 	c.Floor("obfs2-bytes-deadline-fired/obfs2-bytes", 0.05)
 	c.Floor("obfs2-bytes-write-error-hit/obfs2-bytes", 0.04)
-	c.Floor("obfs2-bytes-rejected-magic/obfs2-bytes", 0.015)
-	c.Floor("obfs2-bytes-rejected-padlen/obfs2-bytes", 0.015)
+	// (rejections are classified by behaviour - the handshake returned an error
+	// although the connection had not failed - not by the wording of the error;
+	// the per-reason classes are counted without floors)
+	c.Floor("obfs2-bytes-rejected-by-parser/obfs2-bytes", 0.04)
 	rapid.Check(t, func(rt *rapid.T) {
 		cs := vf10DrawCase(rt)
 		vf10Normalize(cs)
